@@ -21,7 +21,8 @@ fn lex(s: &str) -> Result<Vec<Tok>, String> {
             while i < b.len() && b[i].is_ascii_digit() { i += 1; }
             out.push(Tok::Int(b[st..i].iter().collect())); continue;
         }
-        if c.is_ascii_alphabetic() || c == '$' || c == '_' {
+        if c == '_' { return Err("a word that starts with `_` is neither a TPTP lower word nor a variable (it must be single-quoted)".into()); }
+        if c.is_ascii_alphabetic() || c == '$' {
             let st = i; i += 1;
             while i < b.len() && (b[i].is_ascii_alphanumeric() || b[i] == '_' || b[i] == '$') { i += 1; }
             let w: String = b[st..i].iter().collect();
